@@ -60,7 +60,13 @@ type c18Scenario struct {
 	Restore bool `json:"restore,omitempty"`
 }
 
-var c18KeyPool = []string{"{t}x", "y{t}", "{t}{u}", "{}{t}", "{{t}}", "}{t}", "plain", "{u}z", "{t", "t}{", "\u7528\u6237:1", "{\u8ba2\u5355}x", "caf\xe9", "{\xff\x80}y"}
+// keys longer than any buffer constant on the routing path: the tag lies behind byte 1024 / no tag at all
+var (
+	c18LongTagged = strings.Repeat("x", 1100) + "{t}y"
+	c18LongPlain  = strings.Repeat("k", 1500)
+)
+
+var c18KeyPool = []string{c18LongTagged, c18LongPlain, "{t}x", "y{t}", "{t}{u}", "{}{t}", "{{t}}", "}{t}", "plain", "{u}z", "{t", "t}{", "\u7528\u6237:1", "{\u8ba2\u5355}x", "caf\xe9", "{\xff\x80}y"}
 
 // c18Commands returns the stream commands of a unit and, per command, its keys.
 func c18Commands(u c18Unit) (cmds [][]string, keys [][]string, txn bool) {
@@ -487,7 +493,7 @@ func runC18(t *testing.T, rep *mc.Reporter) {
 	pool := c18KeyPool
 	modes := []biCfg{{"sync", 2}, {"pipeline", 2}, {"parallel", 2}}
 	if tier != "thorough" {
-		pool = []string{"{t}x", "y{t}", "{t}{u}", "{}{t}", "{{t}}", "plain", "{u}z", "{\u8ba2\u5355}x", "caf\xe9"}
+		pool = []string{"{t}x", "y{t}", "{t}{u}", "{}{t}", "{{t}}", "plain", "{u}z", "{\u8ba2\u5355}x", "caf\xe9", c18LongTagged}
 	}
 	var units []c18Unit
 	for _, k := range pool {
@@ -527,7 +533,7 @@ func runC18(t *testing.T, rep *mc.Reporter) {
 	}
 	// ---- snapshot lane: entries of a snapshot are replay units too; with replay.replaceHashTag the
 	// key that is written differs from the key in the snapshot
-	snapKeys := [][]string{{"user{tag}", "{t}x"}, {"order{42", "a}b{c}"}, {"plain", "{}{t}"}}
+	snapKeys := [][]string{{"user{tag}", "{t}x"}, {"order{42", "a}b{c}"}, {"plain", "{}{t}"}, {c18LongTagged, c18LongPlain}}
 	if tier == "thorough" {
 		snapKeys = append(snapKeys, []string{"{{t}}", "}{t}"}, []string{"t}{", "y{t}"}, []string{"{t}{u}", "{u}z"})
 	}
